@@ -162,6 +162,8 @@ pub uninterp spec fn chan_secret(c: VxChanView, n: u64, r: Result<SecretKey, Sta
 pub uninterp spec fn chan_checked_future_secret(c: VxChanView, n: u64, secret: SecretKey, r: Result<bool, Status>) -> bool;
 pub uninterp spec fn chan_validated_holder(c: VxChanView, n: u64, feerate: u32, to_local: u64, to_remote: u64, offered: Seq<HTLCInfo2>, received: Seq<HTLCInfo2>,
     sig: Signature, htlc_sigs: Seq<Signature>, after: VxChanView) -> bool;
+pub uninterp spec fn chan_validated_holder_raw(c: VxChanView, tx: Transaction, witscripts: Seq<Vec<u8>>, n: u64, feerate: u32, offered: Seq<HTLCInfo2>, received: Seq<HTLCInfo2>,
+    sig: Signature, htlc_sigs: Seq<Signature>, after: VxChanView) -> bool;
 pub uninterp spec fn chan_revoked(c: VxChanView, n: u64, r: Result<(PublicKey, Option<SecretKey>), Status>, after: VxChanView) -> bool;
 pub uninterp spec fn chan_activated(c: VxChanView, r: Result<PublicKey, Status>, after: VxChanView) -> bool;
 pub uninterp spec fn chan_signed_mutual_close2(c: VxChanView, to_holder: u64, to_cp: u64, holder_script: Option<ScriptBuf>, cp_script: Option<ScriptBuf>, path: VxPath,
@@ -198,6 +200,13 @@ impl VxChan {
     pub fn validate_holder_commitment_tx_phase2(&mut self, commitment_number: u64, feerate_per_kw: u32, to_holder_value_sat: u64, to_counterparty_value_sat: u64,
         offered_htlcs: Vec<HTLCInfo2>, received_htlcs: Vec<HTLCInfo2>, counterparty_commit_sig: &Signature, counterparty_htlc_sigs: &Vec<Signature>) -> (r: Result<(), Status>)
         ensures r.is_ok() ==> chan_validated_holder(old(self)@, commitment_number, feerate_per_kw, to_holder_value_sat, to_counterparty_value_sat, offered_htlcs@, received_htlcs@,
+                    *counterparty_commit_sig, counterparty_htlc_sigs@, final(self)@),
+                r.is_err() ==> final(self)@ == old(self)@,
+    { unimplemented!() }
+    #[verifier::external_body]
+    pub fn validate_holder_commitment_tx(&mut self, tx: &Transaction, output_witscripts: &Vec<Vec<u8>>, commitment_number: u64, feerate_per_kw: u32,
+        offered_htlcs: Vec<HTLCInfo2>, received_htlcs: Vec<HTLCInfo2>, counterparty_commit_sig: &Signature, counterparty_htlc_sigs: &Vec<Signature>) -> (r: Result<(), Status>)
+        ensures r.is_ok() ==> chan_validated_holder_raw(old(self)@, *tx, output_witscripts@, commitment_number, feerate_per_kw, offered_htlcs@, received_htlcs@,
                     *counterparty_commit_sig, counterparty_htlc_sigs@, final(self)@),
                 r.is_err() ==> final(self)@ == old(self)@,
     { unimplemented!() }
@@ -259,6 +268,9 @@ pub struct SignLocalCommitmentTx2 { pub commitment_number: u64 }
 pub struct ValidateCommitmentTx2 { pub commitment_number: u64, pub feerate: u32, pub to_local_value_sat: u64, pub to_remote_value_sat: u64, pub htlcs: VxHtlcArray,
     pub signature: BitcoinSignature, pub htlc_signatures: VxSigArray }
 pub struct RevokeCommitmentTx { pub commitment_number: u64 }
+pub struct VxTxWrap(pub Transaction);      // WithSize<Transaction>: `m.tx.0` is the transaction
+pub struct ValidateCommitmentTx { pub tx: VxTxWrap, pub psbt: VxPsbtWrapper, pub htlcs: VxHtlcArray, pub commitment_number: u64, pub feerate: u32,
+    pub signature: BitcoinSignature, pub htlc_signatures: VxSigArray }
 pub struct GetPerCommitmentPoint { pub commitment_number: u64 }
 pub struct CheckFutureSecret { pub commitment_number: u64, pub secret: DisclosedSecret }
 pub struct SignMutualCloseTx2 { pub to_local_value_sat: u64, pub to_remote_value_sat: u64, pub local_script: Octets, pub remote_script: Octets, pub local_wallet_path_hint: VxPathHint }
@@ -536,6 +548,52 @@ impl ChannelHandler {
 //@sub /(?s)self\.node\.with_channel\(&self\.channel_id, \|chan\| \{.*?\n\s*\}\)\?/ => self.vx_with_channel_sign_remote1(&tx, &witscripts, remote_per_commitment_point, commit_num, feerate_sat_per_kw, &offered_htlcs, &received_htlcs)?
 //@sub /Ok\(Box::new\(msgs::SignTxReply \{ signature: (.*?) \}\)\)/ => Ok(vx_reply_sign_tx(\1))
 //@sub /extract_htlcs\(&m\.htlcs\)/ => extract_htlcs(m.htlcs.v.as_slice())
+//@end
+
+// ------------------------------------------------ ValidateCommitmentTx (holder commitment, raw-transaction form)
+//@fn vls-protocol-signer/src/handler.rs :: impl Handler for ChannelHandler :: do_handle closure=1 after="Message::ValidateCommitmentTx\(m\) =>" as=htlc_sig_from_wire1 props=C01
+//@sig fn htlc_sig_from_wire1(&self, s: &BitcoinSignature) -> (r: Signature)
+    ensures r == spec_htlc_sig_from_wire(*s),
+//@end
+
+//@fn vls-protocol-signer/src/handler.rs :: impl Handler for ChannelHandler :: do_handle closure=2 after="Message::ValidateCommitmentTx\(m\) =>" as=validate_commitment_tx1_closure props=C01
+//@sig fn validate_commitment_tx1_closure(&self, chan: &mut VxChan, tx: Transaction, witscripts: Vec<Vec<u8>>, commit_num: u64, feerate_sat_per_kw: u32, offered_htlcs: &Vec<HTLCInfo2>, received_htlcs: &Vec<HTLCInfo2>, commit_sig: Signature, htlc_sigs: Vec<Signature>) -> (r: Result<(PublicKey, Option<SecretKey>), Status>)
+    requires commit_num < u64::MAX,
+    ensures
+        r.is_ok() ==> exists|mid: VxChanView| #[trigger] chan_validated_holder_raw(old(chan)@, tx, witscripts@, commit_num, feerate_sat_per_kw, offered_htlcs@, received_htlcs@, commit_sig, htlc_sigs@, mid)
+            && (r->Ok_0.1.is_some() ==> self.protocol_version < PROTOCOL_VERSION_REVOKE && chan_revoked(mid, commit_num, r, final(chan)@)),   //[C01.handler.validate1-secret-only-after-channel-accepted-this-commitment]
+//@sub /offered_htlcs\.clone\(\)/ => vx_clone_htlcs(offered_htlcs)
+//@sub /received_htlcs\.clone\(\)/ => vx_clone_htlcs(received_htlcs)
+//@end
+
+    pub open spec fn validate1_done(&self, tx: Transaction, witscripts: Seq<Vec<u8>>, n: u64, feerate: u32, offered: Seq<HTLCInfo2>, received: Seq<HTLCInfo2>, sig: Signature,
+        htlc_sigs: Seq<Signature>, r: Result<(PublicKey, Option<SecretKey>), Status>) -> bool {
+        exists|c0: VxChanView, mid: VxChanView| node_channel(self.node, self.channel_id, c0)
+            && #[trigger] chan_validated_holder_raw(c0, tx, witscripts, n, feerate, offered, received, sig, htlc_sigs, mid)
+            && (r->Ok_0.1.is_some() ==> self.protocol_version < PROTOCOL_VERSION_REVOKE && exists|c1: VxChanView| #[trigger] chan_revoked(mid, n, r, c1))
+    }
+    #[verifier::external_body]
+    pub fn vx_with_channel_validate1(&self, tx: &Transaction, witscripts: &Vec<Vec<u8>>, commit_num: u64, feerate_sat_per_kw: u32, offered_htlcs: &Vec<HTLCInfo2>, received_htlcs: &Vec<HTLCInfo2>,
+        commit_sig: Signature, htlc_sigs: &Vec<Signature>) -> (r: Result<(PublicKey, Option<SecretKey>), Status>)
+        requires commit_num < u64::MAX,
+        ensures r.is_ok() ==> self.validate1_done(*tx, witscripts@, commit_num, feerate_sat_per_kw, offered_htlcs@, received_htlcs@, commit_sig, htlc_sigs@, r)
+    { unimplemented!() }
+
+//@fn vls-protocol-signer/src/handler.rs :: impl Handler for ChannelHandler :: do_handle arm="Message::ValidateCommitmentTx\(m\)" as=arm_validate_commitment_tx1 props=C01,C06
+//@sig fn arm_validate_commitment_tx1(&self, m: ValidateCommitmentTx) -> (r: Result<VxReply, Status>)
+    requires m.commitment_number < u64::MAX,
+    ensures
+        r.is_ok() ==> exists|p: PublicKey, os: Option<SecretKey>|
+            #[trigger] self.validate1_done(m.tx.0, psbt_witscripts(m.psbt.inner), m.commitment_number, m.feerate,
+                htlcs_offered_by_node(m.htlcs.v@), htlcs_offered_by_peer(m.htlcs.v@), sig_of_wire(m.signature.signature), sigs_of_wire(m.htlc_signatures.v@), Ok((p, os)))   //[C01.handler.validate1-transaction-content-and-signatures-of-the-message] [C06.handler.validate1-htlc-directions]
+            && r->Ok_0 == reply_validate_commitment(wire_of_point(p), if os.is_some() { Some(wire_of_secret(os->Some_0)) } else { None }),
+//@sub /(?s)m\s*\.htlc_signatures\s*\.iter\(\)\s*\.map\(\|s\| \{.*?\n\s*\}\)\s*\.collect\(\);/ => vx_htlc_sigs_from_wire(&m.htlc_signatures);
+//@sub /(?s)self\.node\.with_channel\(&self\.channel_id, \|chan\| \{.*\n\s*\}\)\?;/ => self.vx_with_channel_validate1(&tx, &witscripts, commit_num, feerate_sat_per_kw, &offered_htlcs, &received_htlcs, commit_sig, &htlc_sigs)?;
+//@sub /(?s)Ok\(Box::new\(msgs::ValidateCommitmentTxReply \{\s*next_per_commitment_point: (.*?),\s*old_commitment_secret: (\w+),\s*\}\)\)/ => Ok(vx_reply_validate_commitment(\1, \2))
+//@sub /extract_htlcs\(&m\.htlcs\)/ => extract_htlcs(m.htlcs.v.as_slice())
+//@sub /let htlc_sigs: Vec<_> =/ => let htlc_sigs: Vec<Signature> =
+//@proof before /let old_secret_reply/
+        proof { assert(htlc_sigs@ =~= sigs_of_wire(m.htlc_signatures.v@)); }
 //@end
 
 } // impl
